@@ -97,6 +97,8 @@ def declared_members(t):
     seen = set()
     for klass in reversed(chain):
         for name, ft in klass._type_info.items():
+            if getattr(ft.Attributes, 'exc', False):
+                continue                      # excluded from (de)serialisation
             if name not in seen:
                 seen.add(name)
                 out.append((klass, name, ft))
